@@ -744,7 +744,7 @@ def spec_vs_pyspark(ctx: Ctx, cases: t.List[dict], answers: t.List[dict], what: 
         outs = vlib.run_driver("C06", [case_to_lean(i, c) for i, c in enumerate(cases)])
     bad = []
     for c, o, a in zip(cases, outs, answers):
-        if "err" in o or not o.get("wf"):
+        if "err" in o or not (o.get("wf") or c.get("dup")):
             bad.append((c, a, o))
             continue
         if not same(canon_table(o["spec"]), a):  # PySpark's rows were canonicalised when they were recorded
@@ -918,6 +918,77 @@ def const_key_cases() -> t.List[dict]:
     return out
 
 
+def dup_cases(rng: random.Random, n_random: int) -> t.List[dict]:
+    """repeated entries in key lists and aggregate lists: the same aggregate twice (same alias), the same function under one
+    alias twice with another one in between, a shortcut with a repeated column, the same key twice (name/name, name/F.col,
+    the same aliased expression or constant twice) — PySpark keeps every entry, so the output has one column per entry, in the
+    order given (checked on the live JVM; recorded in tools/oracle/c06_pyspark.json).  Such outputs have duplicate column
+    names, which is outside the model's well-formedness (name-based lookup); these programs are therefore compared
+    implementation vs specification only, end with the grouping operation, and never use cube with a repeated *key*
+    (see the report: cube de-duplicates its keys on the pinned tree) nor cube over an empty input (H_cubeEmptyInput)."""
+    sch = [["k", "int"], ["x", "int"], ["s", "str"]]
+    rows = [[1, 10, "a"], [1, None, "b"], [2, 5, "a"], [None, 7, "a"], [None, None, None]]
+    K = [["k", ("col", "k"), "name"]]
+    sm = ["a", ("agg", "sum", ("col", "x"))]
+    cn = ["c", ("agg", "count", ("col", "x"))]
+    cnt = ["n", ("agg", "countStar", ("lit", 1))]
+    out: t.List[dict] = []
+    ops = [
+        {"k": "groupAgg", "keys": K, "aggs": [sm, cn, sm]},
+        {"k": "groupAgg", "keys": K, "aggs": [sm, sm]},
+        {"k": "groupAgg", "keys": K, "aggs": [sm, ["a", ("agg", "count", ("col", "x"))]]},
+        {"k": "groupAgg", "keys": K, "aggs": [cnt, cnt, cnt]},
+        {"k": "groupAgg", "keys": [], "aggs": [["m", ("agg", "max", ("col", "x"))], ["m", ("agg", "max", ("col", "x"))]]},
+        {"k": "dfAgg", "aggs": [["m", ("agg", "max", ("col", "x"))], cn, ["m", ("agg", "max", ("col", "x"))]]},
+        {"k": "dfAgg", "aggs": [cnt, cnt]},
+        {"k": "shortcut", "keys": K, "m": "sum", "cols": ["x", "x"]},
+        {"k": "shortcut", "keys": K, "m": "mean", "cols": ["x", "k", "x"]},
+        {"k": "shortcut", "keys": [], "m": "max", "cols": ["x", "x"]},
+        {"k": "count", "keys": K + K},
+        {"k": "count", "keys": K + [["k", ("col", "k"), "col"]]},
+        {"k": "groupAgg", "keys": K + [["s", ("col", "s"), "name"]] + K, "aggs": [sm]},
+        {"k": "shortcut", "keys": K + K, "m": "min", "cols": ["x"]},
+        {"k": "count", "keys": [["c", ("lit", "x"), "expr"], ["c", ("lit", "x"), "expr"]]},
+        {"k": "groupAgg", "keys": [["kk", ("bin", "add", ("col", "k"), ("lit", 1)), "expr"]] * 2, "aggs": [sm, sm]},
+        {"k": "cube", "keys": K, "aggs": [sm, sm]},
+        {"k": "cube", "keys": K + [["s", ("col", "s"), "col"]], "aggs": [cnt, sm, cnt]},
+    ]
+    pre = {"k": "where", "p": ("not", ("isNull", ("col", "x")))}
+    for op in ops:
+        for rws in (rows, []):
+            if op["k"] == "cube" and not rws:
+                continue
+            out.append({"schema": sch, "rows": rws, "steps": [copy.deepcopy(op)]})
+        out.append({"schema": sch, "rows": rows, "steps": [pre, copy.deepcopy(op)]})
+    tmp: t.Dict[str, t.Any] = {"ops": {}, "fns": {}, "key_styles": {}, "post": {"where": 0, "select": 0, "group": 0}}
+    made = 0
+    for _ in range(n_random * 20):
+        if made >= n_random:
+            break
+        schema, rws = gen_table(rng)
+        steps: t.List[dict] = []
+        if rng.random() < 0.4:
+            steps.append(gen_where(rng, schema))
+        op, _ = gen_group(rng, schema, tmp)
+        if any(is_int_lit(k[1]) for k in op.get("keys", [])) or (op["k"] == "cube" and (not rws or steps)) or op.get("dict"):
+            continue
+        op = copy.deepcopy(op)
+        choices = [f for f in ("aggs", "cols") if op.get(f)] + (["keys"] if op.get("keys") and op["k"] != "cube" else [])
+        if not choices:
+            continue
+        for fld in rng.sample(choices, rng.randint(1, len(choices))):
+            lst = op[fld]
+            lst.insert(rng.randint(0, len(lst)), copy.deepcopy(rng.choice(lst)))
+        if op["k"] == "cube":
+            op["via_count"] = False
+        out.append({"schema": [list(x) for x in schema], "rows": rws, "steps": steps + [op]})
+        made += 1
+    for c in out:
+        c["origin"] = "repeated-entries"
+        c["dup"] = True
+    return out
+
+
 def cases_for(ctx: Ctx, stats: dict) -> t.List[dict]:
     cases: t.List[dict] = []
     corpus_dir = os.path.join(vlib.VERIF, "corpus", ID)
@@ -965,7 +1036,10 @@ def run(ctx: Ctx) -> None:
     cases = cases_for(ctx, stats)
     oc = oracle_cases()
     oc_outs: t.List[dict] = []
-    res = evaluate(cases, driver_only=oc, driver_only_outs=oc_outs)
+    dup = dup_cases(ctx.rng, 400 if ctx.thorough else 60)
+    res_all = evaluate(cases + dup, driver_only=oc, driver_only_outs=oc_outs)
+    res = [r for r in res_all if not r["case"].get("dup")]
+    dup_res = [r for r in res_all if r["case"].get("dup")]
 
     # comparison C: the specification against PySpark's recorded answers; thorough: against the live JVM as well
     n_oracle = n_oracle_ok = n_live = n_live_ok = 0
@@ -977,7 +1051,7 @@ def run(ctx: Ctx) -> None:
         plain_case = lambda c: {"schema": c["schema"], "rows": c["rows"], "steps": c["steps"]}  # noqa: E731
         rnd = [c for c in cases if c.get("origin") == "random"]
         consty = [c for c in rnd if any(key_style(k) in ("const", "intlit") for s in c["steps"] for k in s.get("keys", []))]
-        sample = [plain_case(c) for c in const_key_cases()[::2] + consty[:60] + rnd[:60]]
+        sample = [plain_case(c) for c in const_key_cases()[::2] + consty[:60] + rnd[:60]] + [dict(plain_case(c), dup=True) for c in dup[:100]]
         answers = live_pyspark(sample)
         if answers is None:
             log("C06: live PySpark not available; the recorded answers stand in")
@@ -999,6 +1073,9 @@ def run(ctx: Ctx) -> None:
                 vlib.report_known(ctx, known[h], known[h]["summary"])
         else:
             new_viol.append(r)
+    # repeated entries: implementation vs specification only (duplicate output names are outside the model's domain)
+    dup_viol = [r for r in dup_res if not r["impl_eq_spec"]]
+    new_viol += dup_viol
     for h, e in known.items():
         ws = [w for kk, w in e.items() if kk.startswith("witness") and isinstance(w, dict) and "steps" in w]
         if ws and any(not r["impl_eq_spec"] for r in evaluate(ws, workers=1)):
@@ -1011,7 +1088,7 @@ def run(ctx: Ctx) -> None:
     for r in sorted(new_viol, key=lambda r: (len(r["case"]["steps"]), len(r["case"]["rows"]))):
         if reported >= 3:
             break
-        c = shrink(r["case"], lambda rr: (not rr["impl_eq_spec"]) and not is_known(rr, known))
+        c = r["case"] if r["case"].get("dup") else shrink(r["case"], lambda rr: (not rr["impl_eq_spec"]) and not is_known(rr, known))
         shape = ".".join(show_step(s) for s in c["steps"])
         if shape in seen:
             continue
@@ -1080,6 +1157,9 @@ def run(ctx: Ctx) -> None:
             "cases_reusing_the_receiver_after_a_grouped_call": sum(1 for r in res if any(s["k"] == "side" for s in r["case"]["steps"])),
             "cases_with_capitalised_column_names": sum(1 for r in res if any(n != n.lower() for n, _ in r["case"]["schema"])),
             "results_with_null_aggregates": n_allnull,
+            "programs_with_repeated_keys_or_aggregates": len(dup_res),
+            "programs_with_repeated_entries_impl_eq_spec": sum(r["impl_eq_spec"] for r in dup_res),
+            "programs_with_repeated_entries_impl_eq_model_not_claimed": sum(r["impl_eq_model"] for r in dup_res),
             "pyspark_recorded_programs": n_oracle,
             "pyspark_recorded_agree_with_spec": n_oracle_ok,
             "pyspark_live_programs": n_live,
@@ -1099,6 +1179,7 @@ def run(ctx: Ctx) -> None:
         "avg is an exact rational in the model; the engine's DOUBLE is compared as a fraction with denominator <= 10^6",
         "the open aggregate block after `agg` is represented by its value under an identity projection (later operations either freeze it or append ORDER BY / LIMIT)",
         "an integer constant in GROUP BY / in a grouping set is a 1-based position in the select list (`groupByTerm`): validated on every generated case with an integer-literal key (rejections included); inside GROUPING SETS only for positions that name a column or an integer constant (a position naming another expression is a separate grouping expression in DuckDB: not modelled, not generated)",
+        "programs with a repeated key / aggregate / shortcut column (duplicate output names) are compared implementation vs specification vs recorded PySpark only: name-based lookup (`Table.WF`) excludes them from the model and the theorems",
         "multi-column count_distinct counts distinct all-non-NULL tuples (C06_count_distinct_n); not modelled: multi-entry dict form of agg, GROUPING_ID expansion, un-aliased expression keys / aggregates (their *names* belong to C10)",
     ]
 
